@@ -163,6 +163,13 @@ def install():
                        up_to_order, nvar, bool((su == 0).any()))
                 c.event(kind, f"order<={up_to_order}", key=key,
                         nontrivial=(len(sel) >= 2 and (up_to_order >= 1 or info["n_unit"] > 0 or len(y_tokens) > 0)))
+                with np.errstate(all="ignore"):
+                    R0_ = np.asarray(ref_sel[0], dtype=float) * (weight if weight is not None else 1.0)
+                    scale0 = 1 + (np.nanmax(np.abs(R0_)) if np.isfinite(R0_).any() else 0.0)
+                    # the non-stationary block (reported as NaN) is computed in the same arithmetic: its magnitude, like that of
+                    # every other entry, is of the order of the shock variances
+                    if weight is None:
+                        scale0 = max(scale0, 1 + float(np.max(np.concatenate([su, sw, [0.0]]) ** 2)))
                 for j, (G, R) in enumerate(zip(got, ref_sel)):
                     G = np.asarray(G, dtype=float)
                     if G.shape != R.shape:
@@ -187,6 +194,9 @@ def install():
                         G = np.where(ok, G * weight, G)
                         R = np.where(ok, R * weight, R)
                     scale = 1 + np.nanmax(np.abs(R[ok])) if ok.any() else 1.0
+                    # (rounding is relative to the VARIANCES: cov(x_t, x_{t-1}) of x = rho*x[-2] + e is exactly zero and comes back as
+                    # 1e-16 times the variance, which is 1e-4 when the stds are of the order 1e6)
+                    scale = max(scale, scale0)
                     err = np.abs(G[ok] - R[ok]).max() if ok.any() else 0.0
                     tol = 1e-8 * scale * max(1.0, info["condV"] / 1e3)
                     if err > tol:
@@ -242,7 +252,7 @@ def make_case(rng):
         stds["std_" + q["name"]] = 0.0 if rng.random() < 0.1 else float(np.round(rng.uniform(0.1, 2.0), 3))
     rr = M.render_source(spec, None, 0)
     return {"kind": "acov", "family": family, "spec": spec, "steady": steady, "meta": meta, "source": rr["source"], "stds": stds,
-            "order": int(rng.integers(0, 5)), "nvar": 1 if rng.random() < 0.75 else 2, "factor": float(np.round(rng.uniform(0.3, 3.0), 2))}
+            "order": int(rng.integers(0, 5)), "nvar": 1 if rng.random() < 0.75 else 2, "factor": float(np.round(rng.uniform(0.3, 3.0), 2)) if rng.random() < 0.7 else float(rng.choice([1e-7, 1e-4, 1e3, 1e6]))}
 
 
 def run_case(c, case):
@@ -290,7 +300,7 @@ def run_case(c, case):
         try:
             with rt.quiet():
                 a0 = m.get_acov(up_to_order=k, unpack_singleton=False)
-                m.get_acorr(up_to_order=k)
+                r0 = m.get_acorr(up_to_order=k, unpack_singleton=False)
                 names = m.get_acov_dimension_names()
         except Exception as exc:
             c.violation(f"get_acov:raised:{type(exc).__name__}", f"{type(exc).__name__}: {str(exc)[:200]}")
@@ -306,6 +316,7 @@ def run_case(c, case):
             with rt.quiet():
                 m.rescale_stds(s)
                 a1 = m.get_acov(up_to_order=k, unpack_singleton=False)
+                r1 = m.get_acorr(up_to_order=k, unpack_singleton=False)
         except Exception as exc:
             c.violation(f"rescale_stds:raised:{type(exc).__name__}", f"{type(exc).__name__}: {str(exc)[:200]}")
             return
@@ -318,8 +329,23 @@ def run_case(c, case):
                     return
                 ok = ~np.isnan(A0)
                 # matrix-level scale: with highly persistent roots the Lyapunov solve amplifies rounding by ~1/(1-|lambda|^2)
-                if ok.any() and np.abs(A1[ok] - s * s * A0[ok]).max() > 1e-7 * (1 + np.abs(A1[ok]).max()):
+                if ok.any() and np.abs(A1[ok] / (s * s) - A0[ok]).max() > 1e-7 * (1 + np.abs(A0[ok]).max()):
                     c.violation("rescale:not-quadratic", f"variant {v} order {j}: acov after rescale_stds({s}) differs from {s}^2 * acov")
+                    return
+                # ... and leaves every autocorrelation unchanged (also for very small and very large s: a variance of 1e-14 is a
+                # variance like any other). Entries of variables whose variance is at rounding level relative to the largest
+                # one are not compared
+                R0, R1 = np.asarray(r0[v][j], dtype=float), np.asarray(r1[v][j], dtype=float)
+                var0 = np.diag(np.asarray(a0[v][0], dtype=float))
+                std_scale = max([abs(float(x_)) for x_ in case["stds"].values()] + [0.0]) ** 2     # (variances of the shocks before rescaling)
+                solid = np.isfinite(var0) & (var0 > 1e-10 * max(std_scale, np.nanmax(np.where(np.isfinite(var0), var0, 0.0), initial=0.0))) & (var0 > 0)
+                cmp_ = np.outer(solid, solid) & np.isfinite(R0)
+                c.event("rescale", "acorr-invariant", key=None)
+                if cmp_.any() and (~np.isfinite(R1[cmp_])).any():
+                    c.violation("rescale:acorr-becomes-missing", f"variant {v} order {j}: an autocorrelation that was finite is not after rescale_stds({s})")
+                    return
+                if cmp_.any() and np.abs(R1[cmp_] - R0[cmp_]).max() > 1e-6:
+                    c.violation("rescale:acorr-not-invariant", f"variant {v} order {j}: autocorrelations change by {np.abs(R1[cmp_] - R0[cmp_]).max():.3e} after rescale_stds({s})")
                     return
 
 
